@@ -60,7 +60,7 @@ func (rl *RedisLock) Acquire() (bool, error) {
 func (rl *RedisLock) AcquireCtx(ctx context.Context) (bool, error) {
 	seconds := atomic.LoadUint32(&rl.seconds)
 	resp, err := rl.store.ScriptRunCtx(ctx, lockScript, []string{rl.key}, []string{
-		rl.id, strconv.Itoa(int(seconds)*millisPerSecond + tolerance),
+		rl.id, strconv.FormatInt(int64(seconds)*millisPerSecond+tolerance, 10),
 	})
 	if errors.Is(err, red.Nil) {
 		return false, nil
